@@ -6,7 +6,7 @@
    to X == X at large coordinates is decided by the double / float sweep of the check (known finding F7). *)
 From Coq Require Import Reals List Lra.
 From Manif Require Import Scalar Mat Group RInst Generic LieSpec SO2 SE2 SO3 SE3 SE23 SGal3 Rn
-  SE2Proofs SO3Proofs SE23Proofs RnProofs Approx Approx_Inst.
+  SE2Proofs SO3Proofs SE23Proofs RnProofs Approx Approx_Inst Sym_SE2.
 Import ListNotations.
 Local Open Scope R_scope.
 
@@ -59,6 +59,14 @@ Theorem C18_sym_SO2 eps X Y e : 0 < eps -> so2_valid X -> so2_valid Y -> 0 < e -
   (forall r i, g_compose (SO2 RS eps) (g_inverse (SO2 RS eps) Y) X = [r; i] -> ~ (i = 0 /\ r < 0)) ->
   g_isApprox (SO2 RS eps) X Y e = g_isApprox (SO2 RS eps) Y X e.
 Proof. intros H. exact (so2_isApprox_sym eps H X Y e). Qed.
+(* SE2: symmetric whenever the relative element is on the closed-form branch of log (eps <= theta^2) and not a half turn;
+   on the Taylor branch log(Z^-1) = -log(Z) holds only to O(theta^4) (truncated series), so symmetry there is a
+   floating-point-grade statement (predicate P18) *)
+Theorem C18_sym_SE2 eps X Y e : 0 < eps -> se2_valid X -> se2_valid Y -> 0 < e ->
+  (forall x y r i, g_compose (SE2 RS eps) (g_inverse (SE2 RS eps) Y) X = [x; y; r; i] ->
+     ~ (i = 0 /\ r < 0) /\ eps <= atan2 i r * atan2 i r) ->
+  g_isApprox (SE2 RS eps) X Y e = g_isApprox (SE2 RS eps) Y X e.
+Proof. intros H. exact (se2_isApprox_sym eps H X Y e). Qed.
 (* any group: symmetric whenever log(Z^-1) = -log(Z) for the relative element Z = Y^-1 X *)
 Theorem C18_sym_generic (G : GroupOps RS) (C : GroupCore G) X Y e : gc_valid C X -> gc_valid C Y -> 0 < e ->
   length (rminus_val G X Y) = g_dof G ->
